@@ -415,6 +415,8 @@ def oracle(case, out):
             fs.append(('perc/not-cheapest', f'percolating path total energy {tot2 / 16} but {bc / 16} is possible over the supplied peaks'))
         elif bp < bc:
             fs.append((MISSING[0], MISSING[1] + f'percolating path total energy {tot2 / 16} but {bp / 16} is possible (axes {pc["axes"]})'))
+        if 'dims' in r and list(r['dims']) != list(dims):
+            fs.append(('path/dims', f'the percolating path reports the grid {r["dims"]}, it was found on the grid {list(dims)} (after being drawn over the same cell sampled on another grid)'))
         if any(not (0 <= w[i] < dims[i]) or (w[i] - v[i]) % dims[i] for v, w in zip(p, r['wrapped']) for i in range(3)):
             fs.append(('path/wrapped-outside-grid', f'wrapped_sites of the percolating path leave the grid {dims}: {r["wrapped"][-1]} for {p[-1]}'))
         if any(not (0 <= x < 1) for f in r['frac'] for x in f):
